@@ -239,8 +239,50 @@ def run_unit(u):
         res['samples'].append({'cross_process_objects': len(items)})
         res['sigs'] = [sig('xproc', i[0]) for i in items]
         return res
+    def transient(k):
+        """A compile that fails for a reason outside the pattern (a warning turned into an error by the caller's filter, the
+        interpreter's recursion limit hit because the *caller* is deep) must leave nothing behind: the same call made again
+        under normal conditions succeeds and equals a fresh parse."""
+        name = ':--t%d' % (k % 3)
+        cu = {name: 'p:contains("x%d")' % k, ':--u': 'div %s, b' % name, ':--plain': 'i'}
+        pat = rng.choice([':--u', name + ' > :--plain', ':is(:--u, :--plain)'])
+        how_ = rng.choice(['warning', 'recursion'])
+        failed = None
+        if how_ == 'warning':
+            with warnings.catch_warnings():
+                warnings.simplefilter('error')
+                try:
+                    sv.compile(pat, custom=cu)
+                except BaseException as ex:  # noqa: BLE001
+                    failed = ex
+        else:
+            def deep(n):
+                if n:
+                    return deep(n - 1)
+                return sv.compile(pat, custom=dict(cu))
+            import sys
+            try:
+                deep(sys.getrecursionlimit() - len(__import__('inspect').stack()) - rng.choice([6, 12, 20, 30]))
+            except RecursionError as ex:
+                failed = ex
+        bump('transient_failures' if failed is not None else 'transient_not_failed')
+        if failed is None:
+            return
+        st1, c1 = monitors.guarded_call(sv.compile, pat, custom=dict(cu))
+        if st1 != 'ok':
+            viol('compile(%r, custom=%r) raises %r after the same call failed transiently (%s: %s)' % (pat, cu, c1, how_, type(failed).__name__),
+                 pat, 'transient-' + how_)
+            return
+        sv.purge()
+        st2, c2 = monitors.guarded_call(sv.compile, pat, custom=dict(cu))
+        if st2 != 'ok' or not (c1 == c2 and hash(c1) == hash(c2)):
+            viol('compile(%r, custom=%r) after a transient failure (%s) differs from a fresh parse' % (pat, cu, how_), pat, 'transient-diff-' + how_)
+
     if u['kind'] == 'values':
-        for _ in range(u['n']):
+        for _k in range(u['n']):
+            if _k % 10 == 0:
+                sv.purge()
+                transient(_k // 10)
             a = args(rng)
             st, c = monitors.guarded_call(comp, a)
             if st != 'ok':
@@ -291,14 +333,29 @@ def run_unit(u):
                     'eq-arg-type:' + ('ne' if cb2 != c else 'hash'))
             # --- one argument different
             neighbours = []
-            for i in range(1, 4):
+            for i in range(1, 6):
                 d = list(a)
                 if i == 1:
                     d[1] = rng.choice([x for x in NSS if not _meq(x, a[1])])
                 elif i == 2:
                     d[2] = rng.choice([x for x in CUSTOMS if not _meq(x, a[2])])
-                else:
+                elif i == 3:
                     d[3] = sv.DEBUG if not a[3] else 0
+                elif i == 4:
+                    # different flags whose Python hashes collide (hash(n) == n mod 2**61-1): equality must look at the values
+                    d[3] = a[3] + 2 * (2 ** 61 - 1) * rng.choice([1, 2, 3])
+                else:
+                    d[3] = rng.choice([-1, -2])           # hash(-1) == hash(-2)
+                    if rng.random() < .5:
+                        a_alt = list(a)
+                        a_alt[3] = -3 - d[3]              # the other one of the pair
+                        st_p, cp_ = monitors.guarded_call(comp, tuple(a_alt))
+                        st_q, cq_ = monitors.guarded_call(comp, tuple(d))
+                        if st_p == 'ok' and st_q == 'ok':
+                            bump('colliding_flag_pairs')
+                            if cp_ == cq_ or not (cp_ != cq_):
+                                viol('objects compiled with flags=-1 and flags=-2 (equal hashes) compare equal: %r' % (a[0],), a[0], 'eq-colliding-flags')
+                        continue
                 st2, cd = monitors.guarded_call(comp, tuple(d))
                 if st2 != 'ok':
                     continue
